@@ -120,8 +120,9 @@ CHECKS = {
               "variant id or a reply before the request; distinct = hash of the script"),
         runs=[dict(engine="shipsim", test="TestC09", quick=dict(checks=30000, shards=4, timeout=600),
                    thorough=dict(checks=1200000, shards=12, timeout=3000)),
-              # hub level: stored SHIP ID (none / correct / wrong) x who dials, on two real hubs
-              dict(engine="hubnet", test="TestC09Hub", shrinktime="1s", quick=dict(checks=3, shards=3, timeout=1200),
+              # hub level: stored SHIP ID (none / correct / wrong, restored through any spelling of the SKI) x who dials x reconnect
+              # while the (slow) application is still busy with the notifications of the first connection, on two real hubs
+              dict(engine="hubnet", test="TestC09Hub", shrinktime="1s", quick=dict(checks=6, shards=3, timeout=1200),
                    thorough=dict(checks=30, shards=4, timeout=6000), env=dict(VERIF_BATCH="8"))],
     ),
     "C12": dict(
